@@ -482,6 +482,16 @@ class RealRelayProbe(Relay):
     def _script(self, ctx, stage):
         key = (ctx['conn'], ctx['txn'])
         rnd = self.lab.rnd
+        # refusals before any transaction: greeting / EHLO / HELO replies are read by the client without an
+        # enhanced status code (plain text such as "554 No SMTP service here")
+        if stage == 'banner' and not self.lab.draining:
+            self.plans[('conn', ctx['conn'])] = rnd.choice(self.lab.cfg.get('greet_profile',
+                                                           ['ok'] * 10 + ['banner5', 'banner4', 'ehlo5', 'ehlo4']))
+        gp = self.plans.get(('conn', ctx['conn']), 'ok') if not self.lab.draining else 'ok'
+        if stage == 'banner' and gp in ('banner5', 'banner4'):
+            return ('reply', '554' if gp == 'banner5' else '421', 'No SMTP service here')
+        if stage in ('ehlo', 'helo') and gp in ('ehlo5', 'ehlo4'):
+            return ('reply', '550' if gp == 'ehlo5' else '450', 'not talking to you')
         if stage == 'mail':
             prof = self.lab.cfg.get('down_profile', ['ok', 'ok', 'mail4', 'mail5', 'rcptmix', 'data4', 'data5',
                                                      'eod4', 'eod5', 'eodmix', 'close'])
@@ -816,9 +826,16 @@ class Lab(object):
                 return None
             if z == 'reply':
                 return Reply('250', '2.0.0 fine')
+            # distinct replies may differ in the enhanced status code, in the text only, or carry no
+            # enhanced status code at all
+            var = rnd.choice(['esc', 'esc', 'text', 'noesc'])
+            k = rnd.randrange(nrep)
             if z == 'temp':
-                return TransientRelayError('t', Reply('450', ('4.1.%d later' + hostile) % rnd.randrange(nrep)))
-            return PermanentRelayError('p', Reply('550', ('5.1.%d no such user' + hostile) % rnd.randrange(nrep)))
+                msg = {'esc': '4.1.%d later' % k, 'text': '4.1.0 later, reason %d' % k, 'noesc': 'later (%d)' % k}[var]
+                return TransientRelayError('t', Reply('450', msg + hostile))
+            msg = {'esc': '5.1.%d no such user' % k, 'text': '5.1.1 <user%d>: no such user' % k,
+                   'noesc': 'no such user %d' % k}[var]
+            return PermanentRelayError('p', Reply('550', msg + hostile))
         if kind == 'ok':
             return kind, None
         if kind == 'reply':
